@@ -27,6 +27,8 @@ open Finset Complex ComplexConjugate
 
 namespace HcipyVerif.NearField
 
+open HcipyVerif.Fft (sumRange_eq)
+
 /-! ## padded sizes and the cut-out embedding -/
 
 theorem roundHalfEven_ge_floor (q : ℚ) : q.floor ≤ roundHalfEven q := by
@@ -365,5 +367,123 @@ theorem nativeAt_withZ_fresnel {p : Params} (hk : p.kind = .fresnel) (z : ℚ) :
     | .fresnel => fresnelAt (withParam p (.distance z))
     | .angular => angularAt (withParam p (.distance z))) = _
   rw [hk]
+
+/-! ## the operator of the theorems is the executable pipeline `filterP` (what the driver op `filt` runs) -/
+
+/-- `Fft.dft2` reads its array only on `[0,My) × [0,Mx)`: the double sum over `Fin My`, `Fin Mx`. -/
+theorem dft2_fin (My Mx : ℕ) (kerY kerX : ℤ → ℂ) (a : ℕ → ℕ → ℂ) (qy qx : ℕ) :
+    Fft.dft2 My Mx kerY kerX a qy qx
+      = ∑ py : Fin My, ∑ px : Fin Mx,
+          a (py : ℕ) (px : ℕ) * (kerY ((py : ℕ) * (qy : ℤ)) * kerX ((px : ℕ) * (qx : ℤ))) := by
+  unfold Fft.dft2
+  rw [sumRange_eq]
+  simp only [sumRange_eq]
+  let G : ℕ → ℂ := fun py => ∑ px ∈ range Mx,
+    a py px * (kerY ((py : ℤ) * (qy : ℤ)) * kerX ((px : ℤ) * (qx : ℤ)))
+  show ∑ py ∈ range My, G py = _
+  rw [← Fin.sum_univ_eq_sum_range G My]
+  apply Finset.sum_congr rfl
+  intro py _
+  let H : ℕ → ℂ := fun px =>
+    a (py : ℕ) px * (kerY (((py : ℕ) : ℤ) * (qy : ℤ)) * kerX ((px : ℤ) * (qx : ℤ)))
+  show ∑ px ∈ range Mx, H px = _
+  rw [← Fin.sum_univ_eq_sum_range H Mx]
+
+/-- Zero-padding through the embedding `cutoutEmb` is the executable `padAt` at `cutStart`. -/
+theorem pad_cutoutEmb (p : Params) (h : padOK p = true) (x : Fin p.ny × Fin p.nx → ℂ)
+    (m : Fin (my p) × Fin (mx p)) :
+    pad (cutoutEmb p h) x m
+      = padAt (cutStart (my p) p.ny) (cutStart (mx p) p.nx) p.ny p.nx (ext2 x) (m.1 : ℕ) (m.2 : ℕ) := by
+  unfold pad padAt
+  by_cases hc : (cutStart (my p) p.ny ≤ (m.1 : ℕ) ∧ (m.1 : ℕ) < cutStart (my p) p.ny + p.ny) ∧
+      (cutStart (mx p) p.nx ≤ (m.2 : ℕ) ∧ (m.2 : ℕ) < cutStart (mx p) p.nx + p.nx)
+  · rw [if_pos hc]
+    obtain ⟨⟨h1, h2⟩, h3, h4⟩ := hc
+    let j : Fin p.ny × Fin p.nx := (⟨(m.1 : ℕ) - cutStart (my p) p.ny, by omega⟩, ⟨(m.2 : ℕ) - cutStart (mx p) p.nx, by omega⟩)
+    have hj : cutoutEmb p h j = m := by
+      apply Prod.ext <;> apply Fin.ext
+      · show cutStart (my p) p.ny + ((m.1 : ℕ) - cutStart (my p) p.ny) = (m.1 : ℕ)
+        omega
+      · show cutStart (mx p) p.nx + ((m.2 : ℕ) - cutStart (mx p) p.nx) = (m.2 : ℕ)
+        omega
+    rw [Finset.sum_eq_single j]
+    · rw [if_pos hj]
+      exact (ext2_fin x j.1 j.2).symm
+    · intro b _ hb
+      rw [if_neg]
+      intro hbm
+      exact hb (cutoutEmb_injective p h (hbm.trans hj.symm))
+    · intro hn
+      exact absurd (Finset.mem_univ j) hn
+  · rw [if_neg hc]
+    apply Finset.sum_eq_zero
+    intro b _
+    rw [if_neg]
+    intro hbm
+    apply hc
+    have h1 : ((cutoutEmb p h b).1 : ℕ) = (m.1 : ℕ) := by rw [hbm]
+    have h2 : ((cutoutEmb p h b).2 : ℕ) = (m.2 : ℕ) := by rw [hbm]
+    have hv := cutoutEmb_val p h b
+    have hb1 := b.1.2
+    have hb2 := b.2.2
+    omega
+
+/-- **The operator of the theorems is the pipeline the driver runs**: `filter` with the DFT of C01/C02 and the
+executable cut-out, at `ℂ`, equals `filterP` (`padAt`, `Fft.dft2`, multiply, `Fft.dft2`, `cropAt`) with the kernels
+`exp(∓2πi n/M)` and the scale `1/(My·Mx)`. -/
+theorem filter_dft2_apply (p : Params) (h : padOK p = true) (D : Fin (my p) × Fin (mx p) → ℂ)
+    (x : Fin p.ny × Fin p.nx → ℂ) (j : Fin p.ny × Fin p.nx) :
+    filter (dftPair2 (my p) (mx p) (my_pos h) (mx_pos h)) (cutoutEmb p h) D x j
+      = filterP p (kF (my p)) (kF (mx p)) (kB (my p)) (kB (mx p)) (((my p * mx p : ℕ) : ℂ)⁻¹)
+          (ext2 D) (ext2 x) (j.1 : ℕ) (j.2 : ℕ) := by
+  unfold filter crop filterP filterN cropAt
+  show (dftPair2 (my p) (mx p) (my_pos h) (mx_pos h)).Finv _ ((cutoutEmb p h j).1, (cutoutEmb p h j).2) = _
+  rw [dftPair2_Finv_eq_dft2]
+  show _ * Fft.dft2 _ _ _ _ _ (cutStart (my p) p.ny + (j.1 : ℕ)) (cutStart (mx p) p.nx + (j.2 : ℕ)) = _
+  congr 1
+  rw [dft2_fin, dft2_fin]
+  apply Finset.sum_congr rfl
+  intro py _
+  apply Finset.sum_congr rfl
+  intro px _
+  congr 1
+  rw [ext2_fin, ext2_fin]
+  unfold mulD
+  congr 1
+  rw [dftPair2_F_eq_dft2, dft2_fin, dft2_fin]
+  apply Finset.sum_congr rfl
+  intro qy _
+  apply Finset.sum_congr rfl
+  intro qx _
+  congr 1
+  rw [ext2_fin]
+  exact pad_cutoutEmb p h x (qy, qx)
+
+
+theorem ext2_conj {My Mx : ℕ} (D : Fin My × Fin Mx → ℂ) (py px : ℕ) :
+    ext2 (fun m => conj (D m)) py px = conj (ext2 D py px) := by
+  unfold ext2
+  split_ifs
+  · rfl
+  · exact (map_zero _).symm
+
+theorem filterBackward_dft2_apply (p : Params) (h : padOK p = true) (D : Fin (my p) × Fin (mx p) → ℂ)
+    (x : Fin p.ny × Fin p.nx → ℂ) (j : Fin p.ny × Fin p.nx) :
+    filterBackward (dftPair2 (my p) (mx p) (my_pos h) (mx_pos h)) (cutoutEmb p h) D x j
+      = filterPBackward (starRingEnd ℂ) p (kF (my p)) (kF (mx p)) (kB (my p)) (kB (mx p)) (((my p * mx p : ℕ) : ℂ)⁻¹)
+          (ext2 D) (ext2 x) (j.1 : ℕ) (j.2 : ℕ) := by
+  unfold filterBackward
+  rw [filter_dft2_apply]
+  unfold filterPBackward filterNBackward filterP
+  have hc : (ext2 fun m => conj (D m)) = fun py px => conj (ext2 D py px) := by
+    funext py px
+    exact ext2_conj D py px
+  rw [hc]
+
+/-- On the transfer-function branch the array that multiplies the FFT is the executable `shiftD` (`np.fft.ifftshift`)
+of the sampled transfer function. -/
+theorem modelD_eq_shiftD {p : Params} (hb : impulseBranch p = false) (Dir : Fin (my p) × Fin (mx p) → ℂ)
+    (m : Fin (my p) × Fin (mx p)) :
+    modelD p Dir m = shiftD (my p) (mx p) (sampledTF p) (m.1 : ℕ) (m.2 : ℕ) := modelD_of_tf hb Dir m
 
 end HcipyVerif.NearField
